@@ -185,6 +185,45 @@ def run(ctx, report):
         raise AnalysisError('rep-loop zf tests not found in emul_full_expr')
     report.analysed['int_comparisons_examined'] = n_cmp
 
+    R5 = report.rule('C07.D5', 'rep loop: count test, one step, count decrement, then the zf termination test; results bound for zero iterations', floor=4)
+    loops = [n for n in walk_no_nested(efe) if isinstance(n, ast.While)]
+    if len(loops) != 1:
+        raise AnalysisError('emul_full_expr: expected one rep loop, found %d' % len(loops))
+    body = loops[0].body
+    pos = {}
+    for i, st in enumerate(body):
+        t = u(st)
+        if isinstance(st, ast.If) and 'my_ecx.arg == 0' in u(st.test) and any(isinstance(x, ast.Break) for x in st.body):
+            pos.setdefault('count-zero test', i)
+        if any(isinstance(x, ast.Call) and u(x.func) == 'emul_expr' for x in ast.walk(st)):
+            pos.setdefault('step', i)
+        if any(isinstance(x, ast.Call) and u(x.func) == 'machine.eval_instr' and 'ecx' in u(x) and "ExprOp('-', my_ecx" in u(x) for x in ast.walk(st)):
+            pos.setdefault('count decrement', i)
+        if isinstance(st, ast.If) and any(isinstance(x, ast.Break) for x in ast.walk(st)) and 'my_zf' in t:
+            pos.setdefault('zf termination test', i)
+    order = ['count-zero test', 'step', 'count decrement', 'zf termination test']
+    missing = [k for k in order if k not in pos]
+    if missing:
+        R5.violation('rep-order', 'rep-loop:missing:%s' % ','.join(missing), 'the rep loop of emul_full_expr has no %s' % ', '.join(missing), where(eh, loops[0]))
+    else:
+        for a, b in zip(order, order[1:]):
+            inst = 'rep-order:%s<%s' % (a, b)
+            if pos[a] < pos[b]:
+                R5.ok(inst, sample='%s precedes %s' % (a, b))
+            else:
+                R5.violation(inst, 'rep-loop:order:%s:%s' % (a, b), 'in the rep loop the %s comes after the %s: the architecture does %s' % (a, b, ' -> '.join(order)),
+                             where(eh, body[pos[a]]), witness='repne scasb with count 10 matching on the third byte must leave ecx == 7')
+    from ..defassign import undefined_at_returns
+    und, nret = undefined_at_returns(efe)
+    if nret == 0:
+        raise AnalysisError('emul_full_expr has no return')
+    if und:
+        for ret, name in und:
+            R5.violation('returns-bound', 'rep-loop:unbound:%s' % name, 'emul_full_expr returns `%s`, which is not bound on every path (zero iterations of the rep loop)' % name,
+                         where(eh, ret), witness="'rep movsb' with ecx == 0 raises UnboundLocalError")
+    else:
+        R5.ok('returns-bound', sample='every name returned by emul_full_expr is bound on all paths (including zero iterations)')
+
     R3 = report.rule('C07.D3', 'evaluation never short-cuts on a flag that is not machine state', floor=1)
     ee = methods.get('eval_expr')
     if ee is None:
@@ -255,6 +294,9 @@ def value_chain_ok(fn, fr, val, at, res_name, depth=0):
 
 
 MUTANTS = [
+    ('rep-zf-before-dec', 'miasmx/tools/emul_helper.py', "            info = l.opmode, l.admode\n            machine.eval_instr(mov(info, ecx, ExprOp('-', my_ecx, ExprInt(uint32(1)))))\n            machine.eval_expr(machine.pool[ecx], {})\n\n            if zf_w :\n                my_zf = machine.eval_expr(machine.pool[zf], {})\n                if 0xF3 in l.prefix and isinstance(my_zf, ExprInt) and my_zf.arg == 0:\n                    break\n                if 0xF2 in l.prefix and isinstance(my_zf, ExprInt) and my_zf.arg == 1:\n                    break\n",
+     "            if zf_w :\n                my_zf = machine.eval_expr(machine.pool[zf], {})\n                if 0xF3 in l.prefix and isinstance(my_zf, ExprInt) and my_zf.arg == 0:\n                    break\n                if 0xF2 in l.prefix and isinstance(my_zf, ExprInt) and my_zf.arg == 1:\n                    break\n            info = l.opmode, l.admode\n            machine.eval_instr(mov(info, ecx, ExprOp('-', my_ecx, ExprInt(uint32(1)))))\n            machine.eval_expr(machine.pool[ecx], {})\n\n", 'C07.D5'),
+    ('rep-memdst-unbound', 'miasmx/tools/emul_helper.py', "        tsc_inc = 0\n        mem_dst = []\n", "        tsc_inc = 0\n", 'C07.D5'),
     ('pool-write-in-read-phase', 'miasmx/expression/expression_eval_abstract.py',
      '            elif isinstance(e.dst, ExprId):\n                pool_out[e.dst] = src\n',
      '            elif isinstance(e.dst, ExprId):\n                pool_out[e.dst] = src\n                self.pool[e.dst] = src\n', 'C07.D1'),
